@@ -194,6 +194,129 @@ theorem quadReal_roots (sqrt : K → K) (hs : SqrtSpec sqrt) (eps a b c : K) (ha
           have e : (-((b - s) / 2)) * (-((b - s) / 2)) + (-((0 - 0 : K) / 2)) * (-((0 - 0) / 2)) = ((s - b) / 2) ^ 2 := by ring
           rw [e]; positivity
 
+/-! ### Complex coefficients -/
+
+/-- the complex identity `q² + b q + a c = 0` for complex `a b c q`, in components -/
+def KeyCx (a b c q : Cx K) : Prop :=
+  q.re * q.re - q.im * q.im + (b.re * q.re - b.im * q.im) + (a.re * c.re - a.im * c.im) = 0 ∧
+  q.re * q.im + q.im * q.re + (b.re * q.im + b.im * q.re) + (a.re * c.im + a.im * c.re) = 0
+
+omit [LinearOrder K] [IsStrictOrderedRing K] in
+/-- complex coefficients: if `q² + bq + ac = 0` and `a ≠ 0` then `q/a` is a root -/
+theorem root_q_div_a_cx (a b c q : Cx K) (ha : Cx.normSq a ≠ 0) (hk : KeyCx a b c q) :
+    IsZero (evalCx a b c (Cx.div q a)) := by
+  obtain ⟨k1, k2⟩ := hk
+  obtain ⟨ar, ai⟩ := a; obtain ⟨br, bi⟩ := b; obtain ⟨cr, ci⟩ := c; obtain ⟨qr, qi⟩ := q
+  simp only [Cx.normSq] at ha
+  simp only at k1 k2
+  have hN2 : ar ^ 2 + ai ^ 2 ≠ 0 := by rw [sq, sq]; exact ha
+  simp only [IsZero, evalCx, Cx.add, Cx.mul, Cx.div, Cx.normSq]
+  constructor
+  · have e : ar * ((qr * ar + qi * ai) / (ar * ar + ai * ai) * ((qr * ar + qi * ai) / (ar * ar + ai * ai))
+            - (qi * ar - qr * ai) / (ar * ar + ai * ai) * ((qi * ar - qr * ai) / (ar * ar + ai * ai)))
+          - ai * ((qr * ar + qi * ai) / (ar * ar + ai * ai) * ((qi * ar - qr * ai) / (ar * ar + ai * ai))
+            + (qi * ar - qr * ai) / (ar * ar + ai * ai) * ((qr * ar + qi * ai) / (ar * ar + ai * ai)))
+          + (br * ((qr * ar + qi * ai) / (ar * ar + ai * ai)) - bi * ((qi * ar - qr * ai) / (ar * ar + ai * ai))) + cr
+        = ((qr * qr - qi * qi + (br * qr - bi * qi) + (ar * cr - ai * ci)) * ar
+            + (qr * qi + qi * qr + (br * qi + bi * qr) + (ar * ci + ai * cr)) * ai) / (ar * ar + ai * ai) := by
+      field_simp; ring
+    rw [e, k1, k2]; simp
+  · have e : ar * ((qr * ar + qi * ai) / (ar * ar + ai * ai) * ((qi * ar - qr * ai) / (ar * ar + ai * ai))
+            + (qi * ar - qr * ai) / (ar * ar + ai * ai) * ((qr * ar + qi * ai) / (ar * ar + ai * ai)))
+          + ai * ((qr * ar + qi * ai) / (ar * ar + ai * ai) * ((qr * ar + qi * ai) / (ar * ar + ai * ai))
+            - (qi * ar - qr * ai) / (ar * ar + ai * ai) * ((qi * ar - qr * ai) / (ar * ar + ai * ai)))
+          + (br * ((qi * ar - qr * ai) / (ar * ar + ai * ai)) + bi * ((qr * ar + qi * ai) / (ar * ar + ai * ai))) + ci
+        = ((qr * qi + qi * qr + (br * qi + bi * qr) + (ar * ci + ai * cr)) * ar
+            - (qr * qr - qi * qi + (br * qr - bi * qi) + (ar * cr - ai * ci)) * ai) / (ar * ar + ai * ai) := by
+      field_simp; ring
+    rw [e, k1, k2]; simp
+
+omit [LinearOrder K] [IsStrictOrderedRing K] in
+/-- complex coefficients: if `q² + bq + ac = 0` and `q ≠ 0` then `c/q` is a root -/
+theorem root_c_div_q_cx (a b c q : Cx K) (hq : Cx.normSq q ≠ 0) (hk : KeyCx a b c q) :
+    IsZero (evalCx a b c (Cx.div c q)) := by
+  obtain ⟨k1, k2⟩ := hk
+  obtain ⟨ar, ai⟩ := a; obtain ⟨br, bi⟩ := b; obtain ⟨cr, ci⟩ := c; obtain ⟨qr, qi⟩ := q
+  simp only [Cx.normSq] at hq
+  simp only at k1 k2
+  have hN2 : qr ^ 2 + qi ^ 2 ≠ 0 := by rw [sq, sq]; exact hq
+  simp only [IsZero, evalCx, Cx.add, Cx.mul, Cx.div, Cx.normSq]
+  -- p(c/q) = c·k·conj(q)² / |q|⁴ with k = q² + bq + ac
+  constructor
+  · have e : ar * ((cr * qr + ci * qi) / (qr * qr + qi * qi) * ((cr * qr + ci * qi) / (qr * qr + qi * qi))
+            - (ci * qr - cr * qi) / (qr * qr + qi * qi) * ((ci * qr - cr * qi) / (qr * qr + qi * qi)))
+          - ai * ((cr * qr + ci * qi) / (qr * qr + qi * qi) * ((ci * qr - cr * qi) / (qr * qr + qi * qi))
+            + (ci * qr - cr * qi) / (qr * qr + qi * qi) * ((cr * qr + ci * qi) / (qr * qr + qi * qi)))
+          + (br * ((cr * qr + ci * qi) / (qr * qr + qi * qi)) - bi * ((ci * qr - cr * qi) / (qr * qr + qi * qi))) + cr
+        = ((cr * (qr * qr - qi * qi + (br * qr - bi * qi) + (ar * cr - ai * ci))
+             - ci * (qr * qi + qi * qr + (br * qi + bi * qr) + (ar * ci + ai * cr))) * (qr * qr - qi * qi)
+            + (cr * (qr * qi + qi * qr + (br * qi + bi * qr) + (ar * ci + ai * cr))
+             + ci * (qr * qr - qi * qi + (br * qr - bi * qi) + (ar * cr - ai * ci))) * (2 * qr * qi))
+          / ((qr * qr + qi * qi) * (qr * qr + qi * qi)) := by
+      field_simp; ring
+    rw [e, k1, k2]; simp
+  · have e : ar * ((cr * qr + ci * qi) / (qr * qr + qi * qi) * ((ci * qr - cr * qi) / (qr * qr + qi * qi))
+            + (ci * qr - cr * qi) / (qr * qr + qi * qi) * ((cr * qr + ci * qi) / (qr * qr + qi * qi)))
+          + ai * ((cr * qr + ci * qi) / (qr * qr + qi * qi) * ((cr * qr + ci * qi) / (qr * qr + qi * qi))
+            - (ci * qr - cr * qi) / (qr * qr + qi * qi) * ((ci * qr - cr * qi) / (qr * qr + qi * qi)))
+          + (br * ((ci * qr - cr * qi) / (qr * qr + qi * qi)) + bi * ((cr * qr + ci * qi) / (qr * qr + qi * qi))) + ci
+        = ((cr * (qr * qi + qi * qr + (br * qi + bi * qr) + (ar * ci + ai * cr))
+             + ci * (qr * qr - qi * qi + (br * qr - bi * qi) + (ar * cr - ai * ci))) * (qr * qr - qi * qi)
+            - (cr * (qr * qr - qi * qi + (br * qr - bi * qi) + (ar * cr - ai * ci))
+             - ci * (qr * qi + qi * qr + (br * qi + bi * qr) + (ar * ci + ai * cr))) * (2 * qr * qi))
+          / ((qr * qr + qi * qi) * (qr * qr + qi * qi)) := by
+      field_simp; ring
+    rw [e, k1, k2]; simp
+
+/-- **Roots are roots, complex coefficients, `b ≠ 0` branch**: for any `csqrt` with `csqrt(d)² = d`, both
+returned values of the complex quadratic routine are roots. -/
+theorem quadCx_roots_general (csqrt : Cx K → Cx K) (a b c : Cx K)
+    (hs : ∀ d, Cx.mul (csqrt d) (csqrt d) = d) (ha : Cx.normSq a ≠ 0) (hb : Cx.normSq b ≠ 0) :
+    IsZero (evalCx a b c (quadCx csqrt false a b c).1) ∧
+    IsZero (evalCx a b c (quadCx csqrt false a b c).2) := by
+  unfold quadCx
+  simp only [Bool.false_eq_true, if_false]
+  have hsd := hs (Cx.sub (Cx.mul b b) (Cx.smul 4 (Cx.mul a c)))
+  generalize csqrt (Cx.sub (Cx.mul b b) (Cx.smul 4 (Cx.mul a c))) = s at hsd ⊢
+  obtain ⟨ar, ai⟩ := a; obtain ⟨br, bi⟩ := b; obtain ⟨cr, ci⟩ := c; obtain ⟨sr, si⟩ := s
+  simp only [Cx.mul, Cx.sub, Cx.smul, Cx.mk.injEq] at hsd
+  obtain ⟨h1, h2⟩ := hsd
+  simp only [Cx.normSq] at hb
+  have hb2 : 0 < br * br + bi * bi := lt_of_le_of_ne (add_nonneg (mul_self_nonneg _) (mul_self_nonneg _)) (Ne.symm hb)
+  suffices h : ∀ q : Cx K, q = (⟨-((if 0 < (Cx.mul (Cx.conj ⟨br, bi⟩) ⟨sr, si⟩).re then Cx.add ⟨br, bi⟩ ⟨sr, si⟩ else Cx.sub ⟨br, bi⟩ ⟨sr, si⟩).re / 2),
+        -((if 0 < (Cx.mul (Cx.conj ⟨br, bi⟩) ⟨sr, si⟩).re then Cx.add ⟨br, bi⟩ ⟨sr, si⟩ else Cx.sub ⟨br, bi⟩ ⟨sr, si⟩).im / 2)⟩ : Cx K) →
+        KeyCx ⟨ar, ai⟩ ⟨br, bi⟩ ⟨cr, ci⟩ q ∧ Cx.normSq q ≠ 0 by
+    obtain ⟨hk, hq⟩ := h _ rfl
+    exact ⟨root_q_div_a_cx _ _ _ _ ha hk, root_c_div_q_cx _ _ _ _ hq hk⟩
+  intro q hqdef
+  simp only [Cx.mul, Cx.conj] at hqdef
+  by_cases ht : 0 < br * sr - -bi * si
+  · simp only [ht, if_true, Cx.add] at hqdef
+    subst hqdef
+    refine ⟨⟨?_, ?_⟩, ?_⟩
+    · simp only; linear_combination (1 / 4 : K) * h1
+    · simp only; linear_combination (1 / 4 : K) * h2
+    · simp only [Cx.normSq]
+      have e : (-((br + sr) / 2)) * (-((br + sr) / 2)) + (-((bi + si) / 2)) * (-((bi + si) / 2))
+          = ((br * br + bi * bi) + (sr * sr + si * si) + 2 * (br * sr - -bi * si)) / 4 := by ring
+      rw [e]
+      have : 0 ≤ sr * sr + si * si := add_nonneg (mul_self_nonneg _) (mul_self_nonneg _)
+      have : 0 < (br * br + bi * bi) + (sr * sr + si * si) + 2 * (br * sr - -bi * si) := by linarith
+      positivity
+  · simp only [ht, if_false, Cx.sub] at hqdef
+    subst hqdef
+    refine ⟨⟨?_, ?_⟩, ?_⟩
+    · simp only; linear_combination (1 / 4 : K) * h1
+    · simp only; linear_combination (1 / 4 : K) * h2
+    · simp only [Cx.normSq]
+      have e : (-((br - sr) / 2)) * (-((br - sr) / 2)) + (-((bi - si) / 2)) * (-((bi - si) / 2))
+          = ((br * br + bi * bi) + (sr * sr + si * si) - 2 * (br * sr - -bi * si)) / 4 := by ring
+      rw [e]
+      have : 0 ≤ sr * sr + si * si := add_nonneg (mul_self_nonneg _) (mul_self_nonneg _)
+      have hle : br * sr - -bi * si ≤ 0 := not_lt.mp ht
+      have : 0 < (br * br + bi * bi) + (sr * sr + si * si) - 2 * (br * sr - -bi * si) := by linarith
+      positivity
+
 /-- near-double-root branch: the returned value `r = -b/(2a)` has residual exactly `-disc/(4a)`, which the
 branch condition bounds by `2·eps·b²/(4|a|)` (tolerance proportional to the coefficient scale). -/
 theorem quadReal_doubleRoot_residual (a b c : K) (ha : a ≠ 0) :
